@@ -286,3 +286,45 @@ def rule_A6b(tree: Tree) -> RuleResult:
                              f"the call of {callee} must be reachable only when the checksum verdict is true, the verdict being True without -c and "
                              f"{routine}(packet) with -c; {detail}", m.line(call)))
     return r
+
+
+def rule_udp_zero(tree: Tree) -> RuleResult:
+    r = RuleResult("UDPZ", "RFC 768: a computed UDP checksum of zero is transmitted as 0xffff — mapped in the UDP routine only (TCP and the shared helper have no such rule)")
+    m = tree.module("checksums")
+
+    def zero_mapping(fn: ast.FunctionDef):
+        hits = []
+        for n in body_walk(fn):
+            if isinstance(n, ast.If) and isinstance(n.test, ast.Compare) and isinstance(n.test.ops[0], ast.Eq):
+                zero = try_fold(n.test.comparators[0])
+                if zero is not None and (zero == 0 or (isinstance(zero, (bytes, bytearray)) and bytes(zero) == b"\x00\x00")):
+                    ones = []
+                    for s in n.body:
+                        for c in ast.walk(s):
+                            v = try_fold(c) if isinstance(c, (ast.Constant, ast.Call)) else None
+                            if v == 0xFFFF or (isinstance(v, (bytes, bytearray)) and bytes(v) == b"\xff\xff"):
+                                ones.append(c)
+                    if ones:
+                        hits.append((n, dotted(n.test.left)))
+            if isinstance(n, ast.BoolOp) and isinstance(n.op, ast.Or) and "65535" in src(n, 300).replace("0xffff", "65535") and isinstance(parent(n), ast.Return):
+                hits.append((n, "return"))
+        return hits
+    from ..core import parent
+    udp = tree.func("checksums", "calculate_checksum_udp")
+    tcp = tree.func("checksums", "calculate_checksum_tcp")
+    helper = tree.func("checksums", "ones_complement_checksum")
+    r.instances += 1
+    hu = zero_mapping(udp.node)
+    ok = len(hu) == 1
+    if ok and hu[0][1] != "return":
+        # the mapped variable is the computed checksum that is compared with the packet's field afterwards
+        var = hu[0][1]
+        calc = [s for s in body_walk(udp.node) if isinstance(s, ast.Assign) and dotted(s.targets[0]) == var and "ones_complement_checksum(" in src(s.value)]
+        ok = bool(calc)
+    r.ob(ok, Finding("UDPZ", "checksums:calculate_checksum_udp:zero-is-ones",
+                     "calculate_checksum_udp compares the checksum field with the computed value without mapping a computed 0x0000 to 0xffff: a correctly "
+                     "checksummed datagram whose checksum is transmitted as 0xffff is discarded under -c", m.line(udp.node)))
+    r.instances += 1
+    bad = [f.qualname for f in (tcp, helper) if zero_mapping(f.node)]
+    r.ob(not bad, Finding("UDPZ", "checksums:tcp-has-no-zero-rule", f"{bad}: TCP has no 'zero is sent as 0xffff' rule; a TCP segment whose correct checksum is 0x0000 would be rejected", m.relpath))
+    return r
